@@ -329,6 +329,17 @@ pub fn gen_plan(r: &mut Rng, toks: &[String], allow_special: bool, next_probe: &
             }
         }
     }
+    // plain `after` code on an opener and a block-entry probe with the *same body* on that opener: both stand behind the opener, and
+    // neither may absorb the other
+    if allow_special && r.chance(1, 8) {
+        let openers: Vec<usize> = (0..n).filter(|i| is_block_style(&toks[*i])).collect();
+        if !openers.is_empty() {
+            let x = *r.pick(&openers);
+            let p = probes(r, next_probe);
+            plan.push(Step::At { idx: x, mode: 1, probes: p.clone() });
+            plan.push(Step::At { idx: x, mode: 4, probes: p });
+        }
+    }
     plan
 }
 
@@ -915,7 +926,15 @@ pub fn run(ctx: &mut Ctx) {
                             }
                             for p in probes {
                                 let t = format!("i32.const:{p}");
-                                if !out.contains(&t) {
+                                // the same body may also have been injected as plain `after` code of this instruction (kept, not cleared):
+                                // then that many copies stand in the output besides this one
+                                let plain_copies = plan
+                                    .iter()
+                                    .enumerate()
+                                    .filter(|(q, x)| matches!(x, Step::At { idx: j, mode: 1, probes: ps } if j == idx && ps.contains(p) && *idx + 1 != toks.len())
+                                        && !plan[*q + 1..].iter().any(|y| matches!(y, Step::ClearAt { idx: j, mode: 1 } if j == idx)))
+                                    .count();
+                                if out.iter().filter(|x| **x == t).count() < 1 + plain_copies {
                                     let via = match st {
                                         Step::InjectAt { .. } => "inject_at",
                                         Step::AddAt { .. } => "add_instr_at",
@@ -1043,7 +1062,9 @@ pub fn run(ctx: &mut Ctx) {
                                 if let Step::At { idx: i, mode, probes } | Step::InjectAt { idx: i, mode, probes } | Step::AddAt { idx: i, mode, probes } = st {
                                     if (3..=5).contains(mode) && *i >= idx && *i < hi {
                                         for p in probes {
-                                            if out.contains(&format!("i32.const:{p}")) {
+                                            // (a plain `after` list with the same body stays: the code keeps plain lists of removed instructions)
+                                            let plain = plan.iter().any(|x| matches!(x, Step::At { mode: 0 | 1, probes: ps, .. } if ps.contains(p)));
+                                            if !plain && out.contains(&format!("i32.const:{p}")) {
                                                 fails.push((
                                                     match *mode {
                                                         3 => "C20,C21",
